@@ -62,7 +62,7 @@ def tla(v):
         return "{" + ", ".join(sorted(tla(x) for x in v)) + "}"
     if isinstance(v, dict):
         if not v:
-            raise ValueError("empty record")
+            return "<<>>"
         if all(isinstance(k, str) and re.fullmatch(r"[A-Za-z_][A-Za-z0-9_]*", k) for k in v):
             return "[" + ", ".join("%s |-> %s" % (k, tla(x)) for k, x in v.items()) + "]"
         return "(" + " @@ ".join("%s :> %s" % (tla(k), tla(x)) for k, x in v.items()) + ")"
@@ -179,6 +179,12 @@ def tlc_ok(res):
 
 def tlc_failed_how(out):
     """short description of a TLC failure for diagnostics"""
+    try:
+        os.makedirs(os.path.join(VERIF, "out"), exist_ok=True)
+        with open(os.path.join(VERIF, "out", "last_tlc_failure.log"), "w") as fp:
+            fp.write(out)
+    except OSError:
+        pass
     lines = [ln for ln in out.splitlines() if ln.startswith("Error:") or "is violated" in ln or "Exception" in ln]
     return " | ".join(lines[:6]) or out[-600:]
 
@@ -222,3 +228,44 @@ def sany(path):
                        stdout=subprocess.PIPE, stderr=subprocess.STDOUT, text=True)
     ok = p.returncode == 0 and "*** Errors" not in p.stdout and "Fatal" not in p.stdout and "Could not" not in p.stdout
     return ok, p.stdout
+
+
+class DesignCheck:
+    """
+    Step (a) of the pipeline: TLC model-checks a hand-written exhaustive configuration of a specification
+    (Spec => the property formulas) in a background thread while the harness exercises the real code.
+    """
+
+    def __init__(self, runs, workers=4, timeout=900):
+        import threading
+
+        self.runs = runs            # list of (root module in SPEC_DIR, cfg file name, label)
+        self.results = {}
+        self.threads = []
+        for root, cfg, label in runs:
+            t = threading.Thread(target=self._run, args=(root, cfg, label, workers, timeout), daemon=True)
+            t.start()
+            self.threads.append(t)
+
+    def _run(self, root, cfg, label, workers, timeout):
+        wd = Workdir(prefix="mc-")
+        try:
+            res = run_tlc(wd, root, os.path.join(SPEC_DIR, cfg), workers=workers, timeout=timeout, heap="6g")
+            self.results[label] = res
+        finally:
+            wd.cleanup()
+
+    def join(self, out):
+        """adds the state counts to the outcome; raises TlcError if a model fails its own properties"""
+        for t in self.threads:
+            t.join()
+        summary = {}
+        for root, cfg, label in self.runs:
+            res = self.results.get(label)
+            if res is None or not tlc_ok(res):
+                raise TlcError("design-level model check %s failed: %s" % (label, tlc_failed_how(res["out"]) if res else "no result"))
+            st = parse_stats(res["out"])
+            out.add_model(st)
+            summary[label] = {"distinct_states": st["distinct"], "states_generated": st["generated"], "depth": st["depth"],
+                              "wall_s": round(res["wall_s"], 1)}
+        out.notes["design_level_model_checks"] = summary
